@@ -1,8 +1,8 @@
 SPECIFICATION TSpec
 CONSTANTS
   INDEX_OWN_PATH = TRUE
-  FIX_INDEX_OWN = FALSE
-  FIX_DIRNAME = FALSE
-  FIX_LENGTH = FALSE
+  FIX_INDEX_OWN = TRUE
+  FIX_DIRNAME = TRUE
+  FIX_LENGTH = TRUE
   SORT = "reverse"
 CHECK_DEADLOCK FALSE
